@@ -327,6 +327,7 @@ def extract_fn(relpath, qual, ann):
     apply_forloops(ed, it["loops"], src, ann, qual)
     apply_fund_sums(ed, src, s0, e0)
     apply_anyloops(ed, it, it["closures"], src, ann, qual)
+    apply_findloops(ed, it, it["closures"], src, ann, qual)
     # R6 response attributes
     if ann.get("drop_response_attrs", True):
         for m in it.get("mcalls", []):
@@ -434,6 +435,41 @@ def apply_anyloops(ed, it, closures, src, ann, qual):
 
 
 
+def apply_findloops(ed, it, closures, src, ann, qual):
+    """D17: `X.iter().find(|p| COND)` -> a block holding an index loop over X that stops at the first element satisfying COND
+    (copied by span) and yields `Option<&T>` (`//@findloop k`, k = ordinal of the closure; invariant supplied by the annotation).
+    A leading `&` of the closure pattern (`|&p|`, destructuring the `&&T` that `find` passes) is dropped: the loop binds `p: &T`."""
+    for k, inv in (ann.get("findloops") or {}).items():
+        elem_ty = "_"
+        if " " in str(k).strip():
+            k, elem_ty = str(k).split(None, 1)
+        k = int(k)
+        if k >= len(closures):
+            raise Inconclusive(f"anchor lost: closure #{k} of {qual} (findloop)")
+        c = closures[k]
+        mp = [m for m in it["mcalls"] if m["name"] == "find" and len(m["args"]) == 1 and m["args"][0] == c["span"]]
+        if len(mp) != 1 or len(c["params"]) != 1:
+            raise Inconclusive(f"D17: closure #{k} of {qual} is not the argument of a .find(|p| ..) call")
+        mp = mp[0]
+        itc = [m for m in it["mcalls"] if m["name"] == "iter" and m["span"][1] == mp["recv_end"]]
+        if len(itc) != 1:
+            raise Inconclusive(f"D17: .find of closure #{k} in {qual} is not of the shape X.iter().find(..)")
+        itc = itc[0]
+        xsrc = src[itc["span"][0]:itc["recv_end"]].decode()
+        ptxt = src[c["params"][0]["span"][0]:c["params"][0]["span"][1]].decode().strip()
+        if ptxt.startswith("&"):
+            ptxt = ptxt[1:].strip()
+        b0, b1 = c["body"]
+        head = ("{ let verif_fv = &" + xsrc + "; let mut verif_found: Option<&" + elem_ty + "> = None; let mut verif_fi: usize = 0;\n"
+                "while verif_fi < verif_fv.len()\n" + inv.rstrip() + "\n    decreases verif_fv.len() - verif_fi\n"
+                "{ let " + ptxt + " = &verif_fv[verif_fi]; if ")
+        ed.add(itc["span"][0], b0, head, "D17", f"`{xsrc.strip()[:30]}.iter().find(..)` desugared to an index loop stopping at the first match (closure body copied by span)")
+        hit = (ann.get("findhits") or {}).get(str(k), "").strip()
+        ext = (ann.get("findexits") or {}).get(str(k), "").strip()
+        ed.add(b1, mp["span"][1], " { verif_found = Some(" + ptxt + "); " + hit + " break; } verif_fi = verif_fi + 1; } " + ext + " verif_found }", None)
+
+
+
 def apply_maploops(ed, it, closures, src, ann, qual, relpath):
     # D2: `X.into_iter()/.iter().map(|p| { BODY; Ok(p) | EXPR }).collect[::<..>]()[?]` -> index loop over X with BODY copied by span
     for k, inv in (ann.get("maploops") or {}).items():
@@ -459,7 +495,7 @@ def apply_maploops(ed, it, closures, src, ann, qual, relpath):
             chain_end += 1
         xsrc = src[chain_start:itc["recv_end"]].decode()
         ptxt = src[c["params"][0]["span"][0]:c["params"][0]["span"][1]].decode()
-        bind = (f"let {ptxt} = verif_elem(&verif_src, verif_i);" if itc["name"] == "into_iter"
+        bind = (f"let {ptxt} = verif_src.velem(verif_i);" if itc["name"] == "into_iter"
                 else f"let {ptxt} = &verif_src[verif_i];")
         bs0, bs1 = c["body"]
         head = ("{ let verif_src = " + xsrc + "; let mut verif_out" + (f": Vec<{elem_ty}>" if elem_ty else "") + " = Vec::new(); let mut verif_i: usize = 0;\n"
